@@ -175,6 +175,17 @@ def translate():
     # drive_frontend_shutdown_io: the forced read runs outside ready(); it serves the backends it armed
     if not re.search(r"\.readable\(&mut self\.context, EndpointClient\(&mut self\.router\)\)\s*\{\s*MuxResult::Continue => \{\}\s*MuxResult::CloseSession \| MuxResult::Upgrade => return true,\s*\}.{0,700}?for backend in self\.router\.backends\.values_mut\(\) \{\s*if backend\.readiness\(\)\.filter_interest\(\)\.is_writable\(\) \{\s*let _ = backend\.writable\(&mut self\.context, EndpointServer\(&mut self\.frontend\)\);", ms, re.S):
         fails.append("mod.rs: drive_frontend_shutdown_io no longer writes out what its forced frontend read queued for the backends (no epoll edge follows for bytes already read: the request in flight waits for the shutdown deadline)")
+    # reset_stream on a backend connection: once the response has started, only the abort (model on_backend_reset)
+    if not re.search(r"let response_started =\s*!self\.position\.is_server\(\) && context\.streams\[stream_id\]\.back\.consumed;\s*if let Some\(token\) = linked_token \{\s*if response_started \{\s*endpoint\.readiness_mut\(token\)\.arm_writable\(\);\s*\} else \{\s*endpoint\.end_stream\(token, stream_id, context\);", hs):
+        fails.append("h2.rs: reset_stream asks the frontend for a default answer even when part of the response already went to the client (a 502 page would follow the bytes of the 200, ended cleanly)")
+    # trailer fields do not need room in the stream buffer (it may be full of undrained body)
+    pk = open(os.path.join(MUX, "pkawa.rs")).read()
+    try:
+        tb = _fn_body(pk, "pub fn handle_trailer(")
+        if "kawa.storage.write_all" in tb or not re.search(r"let key = Store::from_slice\(&k\);\s*let val = Store::from_slice\(&v\);\s*kawa\.push_block\(Block::Header\(Pair \{ key, val \}\)\);", tb):
+            fails.append("pkawa.rs: handle_trailer writes the trailer fields into the stream buffer again (full of body when the client is slow: the block fails and the stream is reset)")
+    except ValueError as ex:
+        fails.append("pkawa.rs: handle_trailer unreadable: %r" % (ex,))
     lines = ["(* GENERATED by props/c15.py:translate from /repo/lib/src/protocol/mux — do not edit. *)",
              "From Coq Require Import NArith List.", "Import ListNotations.", "Open Scope N_scope.", ""]
     for k in PARSER_CONSTS + H2_CONSTS + ["FLOOD_WINDOW_MS", "MAX_LOOP_ITERATIONS"]:
